@@ -55,6 +55,7 @@ class World:
         self._leaf = {}
         self._acc = {}
         self.depth = 2        # how many levels of children are validated by interpreting their own matchers
+        self.build = 0        # how many levels of children are built as objects with .items (0: recording stubs only)
         self.ev = PE.Evaluator({}, max_steps=3000000)
         g = self.ev.g
         pats = m.snap["patterns"]
@@ -169,6 +170,74 @@ class World:
                     and A.text(body[0].value.func) in self.LEAF_ENGINES
             self._leaf[key] = ok
         return self._leaf[key]
+
+    def construct(self, key, text):
+        """Build the child as the real constructor would (own matcher, then the registered alternatives in order), one level deep: the
+        result is an object with .items that prints through its own interpreted printer.  None when this cannot be done faithfully
+        (the caller then falls back to a recording stub); NoMatchError when every alternative definitely refuses the text."""
+        m = self.m
+        c = m.classes[key]
+        if c.get("generated") and c["name"].endswith("_List") and c["name"][:-5] in self.classes:
+            # a generated <X>_List: SequenceBase with separator ',' over <X>
+            ek = self.classes[c["name"][:-5]]
+            mapped, restore = one_taint._mini_map(text)
+            parts = [restore(p_).strip() for p_ in mapped.split(",")]
+            if any(not p_ for p_ in parts):
+                raise PE.PyRaise("NoMatchError", "%s: %r" % (c["name"], text))
+            items = []
+            for p_ in parts:
+                if self.accepts(ek, p_, max(self.depth - 1, 1)) is False:
+                    raise PE.PyRaise("NoMatchError", "%s: %r" % (c["name"], p_))
+                sub = None
+                if self.build > 1:
+                    saved = self.build
+                    self.build -= 1
+                    try:
+                        sub = self.construct(ek, p_)
+                    except PE.PyRaise:
+                        sub = None
+                    finally:
+                        self.build = saved
+                items.append(sub if sub is not None else Tok(p_, c["name"][:-5]))
+            node = Inst(self, key, {"string": text, "parent": None, "item": None, "items": tuple(items), "separator": ","})
+            return node
+        if c.get("generated"):
+            return None
+        saved_b, saved_d = self.build, self.depth
+        self.build, self.depth = self.build - 1, max(self.depth - 1, 1)
+        try:
+            f = m.method(key, "match")
+            undecided = False
+            if f is not None and "reader" not in A.param_names(f.node):
+                try:
+                    res = run_match(self, key, text, reset=False)
+                    if res is not None:
+                        node = build(self, key, res, text)
+                        if isinstance(node, Inst):
+                            str(node)              # the printer must be interpretable, else fall back to a stub
+                        return node
+                except PE.Unsupported:
+                    undecided = True
+                except PE.PyRaise as err:
+                    if err.exc_type != "NoMatchError":
+                        undecided = True
+            for k2 in (m.snap["registry"][self.std].get(c["name"]) or []):
+                if k2 == key or k2 not in m.classes:
+                    continue
+                v = self.accepts(k2, text, 2)
+                if v is True:
+                    try:
+                        sub = self.construct(k2, text)
+                    except PE.PyRaise:
+                        sub = None
+                    return sub if sub is not None else Tok(text, k2.split(":")[1])
+                if v is None:
+                    undecided = True
+            if undecided:
+                return None
+            raise PE.PyRaise("NoMatchError", "%s: %r" % (c["name"], text))
+        finally:
+            self.build, self.depth = saved_b, saved_d
 
     def accepts(self, key, text, depth):
         """Would the real constructor of this class accept the text?  True / False / None (not decided within the depth budget).
@@ -285,6 +354,10 @@ class ClassRef(PE.Obj):
             raise PE.Unsupported("%s constructed from %s" % (self.name, type(text).__name__))
         if not text.strip():
             raise PE.PyRaise("NoMatchError", "%s: empty text" % self.name)
+        if self.world.build > 0:
+            node = self.world.construct(self.key, text.strip())
+            if node is not None:
+                return node
         if self.world.accepts(self.key, text.strip(), self.world.depth) is False:
             raise PE.PyRaise("NoMatchError", "%s: %r" % (self.name, text))
         return Tok(text.strip(), self.name)
@@ -311,6 +384,9 @@ class Inst(PE.Obj):
 
     def __str__(self):
         return str(self.get(self.world.ev, "tostr")())
+
+    def __repr__(self):
+        return "%s(%r)" % (self.cls.name, self.fields.get("string"))
 
 
 def run_match(world, key, text, reset=True):
@@ -556,6 +632,9 @@ SAMPLES = [
     ("Procedure_Designator", "a(i, f(1, 2))%b%sub"),
     # --- I/O
     ("Open_Stmt", "open (unit=10, file='a=b, c.txt', status=trim(s)//'x')"),
+    ("Open_Stmt", "open (10, file='a.txt')"),
+    ("Open_Stmt", "open (file='a.txt', unit = 10)"),
+    ("Open_Stmt", "open (file='a.txt', UNIT  =10, err=99)"),
     ("Connect_Spec", "file = 'a=b, (c).txt'"),
     ("Connect_Spec", "f(1, 2)"),
     ("Close_Stmt", "close (unit=10, status='keep, really')"),
@@ -644,12 +723,13 @@ def _once(world, key, t):
     return str(build(world, key, res, t))
 
 
-def standards_rule(m, rid, floor=150):
+def standards_rule(m, rid, floor=150, build_depth=0):
     """C17: every sample the 2003 classes accept is accepted by the classes the 2008 grammar uses for the same rule, with the same text."""
     r = RuleResult(rid, "for every sample text the 2003 matcher accepts, the class the 2008 grammar uses for the same rule accepts it too and "
                         "prints the same text (both interpreted; children are recording stubs)")
     r.floor = floor
     w3, w8 = World(m, "f2003"), World(m, "f2008")
+    w3.build = w8.build = build_depth
     for cname, text in SAMPLES:
         k3, k8 = w3.classes.get(cname), w8.classes.get(cname)
         if k3 is None or k8 is None:
@@ -745,16 +825,20 @@ CANONICAL = {
     ("Char_Selector", "(n+1, kind=ck)"): "(len = n+1, kind = ck)",
     ("Connect_Spec", "f(1, 2)"): "unit = f(1, 2)",
     ("Subroutine_Stmt", "subroutine t() bind(c)"): "subroutine t bind(c)",
+    ("Endfile_Stmt", "endfile (10)"): "endfile (unit = 10)",
+    ("Open_Stmt", "open (10, file='a.txt')"): "open (unit = 10, file='a.txt')",
+    ("Backspace_Stmt", "backspace 10"): "backspace 10",
 }
 
 
-def roundtrip_rule(m, rid, samples=None, floor=1, tokens=False):
+def roundtrip_rule(m, rid, samples=None, floor=1, tokens=False, build_depth=0):
     samples = SAMPLES if samples is None else samples
     r = RuleResult(rid, "fparser2 class-local round trip by interpretation: for %d sample texts the class's matcher (children are recording "
                         "stubs, engines interpreted) accepts the text, every literal and parenthesised group re-appears in what its printer "
                         "prints, and that text is accepted again and prints to itself" % len(samples))
     r.floor = floor
     world = World(m)
+    world.build = build_depth
     for cname, text in samples:
         key = world.classes.get(cname)
         if key is None:
@@ -786,7 +870,7 @@ def roundtrip_rule(m, rid, samples=None, floor=1, tokens=False):
             def norm(t):
                 return squeeze(t).replace("::", "")
             want_text = CANONICAL.get((cname, text), text)
-            if norm(out1) != norm(want_text):
+            if norm(out1) not in (norm(want_text), norm(text)):
                 r.ob(False)
                 r.fail("%s|tokens" % ident, "%s: %r is printed as %r; apart from blanks, case and '::' the text should be %r: a token is "
                        "dropped, invented or moved" % (cname, text, out1, want_text), m.class_loc(key))
